@@ -177,9 +177,22 @@ def containers_over(K, K4, tier):
     return out
 
 
-def reps_l1(K4):
+def reps_l1(K4, tier="quick"):
     a, s = K4[1], K4[2]
-    return [
+    extra = []
+    if tier == "thorough":
+        extra = [
+            ("list", ("typed", K4[3]), (ln(2),)), ("list", ("typed", K4[0]), (ln(E, 1),)),
+            ("list", ("elems", (K4[0], s, E)), ()), ("list", ("elems", (E, K4[0], s)), ()),
+            ("list", ("elems", (E, K4[0], s, E)), ()), ("list", ("elems", (K4[0], E)), (ln(3),)),
+            ("list", ("elems", ()), ()), ("list", ("elems", (E,)), ()), ("list", None, (ln(1, 2),)),
+            ("dict", (("a", True, K4[0]), ("b", True, s)), True), ("dict", (), False),
+            ("dict", None, False), ("dict", ((1, False, K4[0]), (None, True, s)), False),
+            ("any", (K4[0], s, NONE)), ("any", None), ("any", (("any", None), K4[0])),
+            S("float", ("min", 0.15), ("max", 0.35), ("precision", 1)), S("str", ("contains", "ab"), ln(2, 4)),
+            S("str", ("regex", "^a.$")), S("uuid4"), S("bytes", call(b"ab")), S("date"),
+        ]
+    return extra + [
         ("list", ("typed", a), (ln(1, 3),)),
         ("list", ("elems", (K4[0], E)), ()),
         ("list", ("elems", (E, s)), ()),
@@ -216,6 +229,25 @@ def derived(K4):
     ]
 
 
+def e1_scalar_terms():
+    """Every state of the E1 declaration graphs of int/float/str (chains <= 3) as a term."""
+    from . import e1
+    out = []
+    for kind in ("int", "float", "str"):
+        seen, _ = e1.bfs(kind, "thorough", 3)
+        for _, (_, chain) in seen.items():
+            calls = []
+            for m, a in chain:
+                if m == "__call__":
+                    calls.append(("call", a[0]))
+                elif m == "len":
+                    calls.append(("len",) + tuple(a))
+                else:
+                    calls.append((m, a[0]))
+            out.append((kind, tuple(calls)))
+    return out
+
+
 _CACHE = {}
 
 
@@ -228,15 +260,16 @@ def universe(tier, derived_terms=True):
     U = list(scalars(tier))
     L1 = containers_over(K, K4, tier)
     U += L1
-    R1 = reps_l1(K4)
+    R1 = reps_l1(K4, tier)
     L2 = []
     for c in R1:
         L2 += wrap(c)
     U += L2
     if tier == "thorough":
-        # L3: wrap one representative of every L2 wrapper shape again
-        for c in L2[::7]:
+        # L3: wrap every third L2 term again (every wrapper shape around every L2 shape)
+        for c in L2[::3]:
             U += wrap(c)
+        U += e1_scalar_terms()
     if derived_terms:
         U += derived(K4)
     seen, out = set(), []
